@@ -4,14 +4,15 @@ statements of C01/C07/C08/C09 and the GFF3/GTF/GFF2 conventions.  Never
 imports gffutils.
 
 A dialect point D is a dict:
-    fmt       'gff3' (key=value) | 'gtf' (key "value") | 'gff2' (key value, unquoted)
+    fmt       'gff3' (key=value) | 'gtf' (key "value") | 'gff2' (key value, unquoted) | 'gff3q' (key="value")
     sep       ';' | '; ' | ' ; '
     trailing  bool   (attribute column ends with ';')
     repeated  bool   (multi-valued attribute written as repeated keys instead of a comma list)
 """
 import itertools
 
-FMTS = ("gff3", "gtf", "gff2")
+FMTS = ("gff3", "gtf", "gff2", "gff3q")
+KV_STYLE = ("gff3", "gff3q")      # key=value styles (first attribute must be key=value with a \\w+ key)
 SEPS = (";", "; ", " ; ")
 
 RESERVED = set("\n\t\r%;=&,") | {chr(i) for i in range(32)} | {chr(127)}
@@ -26,7 +27,7 @@ def points():
 
 def escapes(D):
     """Does the dialect percent-encode reserved characters?  (gtf has no escaping)"""
-    return D["fmt"] in ("gff3", "gff2")
+    return D["fmt"] in ("gff3", "gff2", "gff3q")
 
 
 def encode_value(v):
@@ -42,6 +43,8 @@ def render_part(key, values, D):
         return key + ' ""' if fmt == "gtf" else key
     if fmt == "gff3":
         return key + "=" + joined
+    if fmt == "gff3q":
+        return key + '="' + joined + '"' 
     if fmt == "gtf":
         return key + ' "' + joined + '"'
     return key + " " + joined
@@ -83,9 +86,9 @@ def gffutils_dialect(D, order, quoted=None):
     return {
         "leading semicolon": False,
         "trailing semicolon": bool(D["trailing"]),
-        "quoted GFF2 values": (D["fmt"] == "gtf") if quoted is None else quoted,
+        "quoted GFF2 values": (D["fmt"] in ("gtf", "gff3q")) if quoted is None else quoted,
         "field separator": D["sep"],
-        "keyval separator": "=" if D["fmt"] == "gff3" else " ",
+        "keyval separator": "=" if D["fmt"] in KV_STYLE else " ",
         "multival separator": ",",
         "fmt": "gtf" if D["fmt"] == "gtf" else "gff3",   # unquoted gff2 is reported as 'gff3' with a blank separator
         "repeated keys": bool(D["repeated"]),
@@ -144,7 +147,7 @@ def vote(window):
 def D_from_dialect(d):
     """Inverse of gffutils_dialect for printing with a voted dialect."""
     if d["keyval separator"] == "=":
-        fmt = "gff3"
+        fmt = "gff3q" if d["quoted GFF2 values"] else "gff3"
     elif d["fmt"] == "gtf":
         fmt = "gtf"
     else:
